@@ -24,7 +24,7 @@ pub fn plan() -> Plan {
     lossy.persistent_pm = 200;
     Plan {
         profiles: vec![mixed, turns, single, lossy],
-        directed: vec![],
+        directed: vec![("alias-limit-exceeded", |h| h.alias_limit_exceeded())],
         quick_histories: 400,
         thorough_histories: 240_000,
         s5: Some((2, 30, s4common::s5_default(false, 0))),
